@@ -2573,6 +2573,13 @@ func (db *DB) ApplyLTXNoLock(path string, fatalOnError bool) (retErr error) {
 	hdr = dec.Header()
 	if db.pageSize == 0 {
 		db.pageSize = dec.Header().PageSize
+	} else if hdr.IsSnapshot() && hdr.PageSize != db.pageSize {
+		// A snapshot replaces the whole database. It can span a drop and a
+		// re-creation with another page size: start over with the snapshot's.
+		db.pageSize = hdr.PageSize
+		db.chksums.mu.Lock()
+		db.chksums.pages, db.chksums.blocks = nil, nil
+		db.chksums.mu.Unlock()
 	}
 
 	// Delete database files if this has a zero "commit" field.
